@@ -1,4 +1,7 @@
 """C18 — ChainedDiscretizer merges rare values only along the supplied hierarchy."""
+import os
+import re
+
 import common as C
 from props.base import NAN, Prop, chunks, dec, decs, enc, encs
 
@@ -10,6 +13,21 @@ FREQS = [(1, 20), (1, 10), (3, 20), (1, 5), (1, 4), (1, 3), (7, 100), (1, 8), (3
 
 def isnan(x):
     return isinstance(x, float) and x != x
+
+
+def strform(v):
+    """string form of a raw cell, exactly as type_discretizers.fit_feature computes it (the per-case
+    table handed to the model: CPython's str() is an oracle, not re-implemented in Coq)"""
+    if isinstance(v, str) or isnan(v):
+        return v
+    if isinstance(v, float) and float.is_integer(v):
+        return str(int(v))
+    return str(v)
+
+
+def scol(case):
+    """training column as the hierarchy sees it: every non-string cell replaced by its string form"""
+    return [strform(v) for v in decs(case["col"])]
 
 
 INDEX_KINDS = [None, "offset", "perm", "str", "shuffle", "partial"]
@@ -146,9 +164,17 @@ class C18(Prop):
             "policies; min_freq from a list of p/q; ~8% malformed hierarchies (error class compared); "
             "fit and transform frames carry a non-default row index in ~75% of cases (offset integers, "
             "permutation of 0..n-1, strings, non-monotone distinct integers, labels overlapping 0..n-1 by half); "
-            "distinct = (levels, policy, unknown class, NaN, outcome, merge profile per level)")
-    assumptions = ["one feature, values_orders=None, str_nan='__NAN__', string hierarchy values, cells are "
-                   "str or numpy.nan, at least one row",
+            "a third of the volume again with NUMERIC columns whose string forms are the leaves (int64, "
+            "float64 with integer-valued floats like 2.0 and others like 3.5, NaN, object columns mixing a "
+            "number and its string form), unknown numbers under both policies, transform of the raw numeric "
+            "training frame, of the hierarchy values given as numbers and of a never-seen value; "
+            "distinct = (cell kind, levels, policy, unknown class, NaN, outcome, merge profile per level)")
+    assumptions = ["one feature, values_orders=None, str_nan='__NAN__', string hierarchy values (orders are "
+                   "documented as strings: hierarchies written with raw numbers are out of scope), at least one row",
+                   "numeric cells reach the model through the per-case table of their string forms (str(int(v)) "
+                   "for integer-valued floats, str(v) otherwise, computed by CPython in the harness); content is "
+                   "compared on its string members; transforms of raw numeric frames are checked by the Python "
+                   "reference only",
                    "hierarchy theorems assume each level is a Python dict (unique keys) of strings "
                    "other than '__NAN__'; C18_rule_* additionally name the level at which the value "
                    "is a proper member",
@@ -177,14 +203,75 @@ class C18(Prop):
         import glob
         import json
         import os
-        for fn in sorted(glob.glob(os.path.join(C.VERIF, "corpus", "findings", "C18-*.json"))):
+        for fn in sorted(glob.glob(os.path.join(C.VERIF, "corpus", "findings", "C18-*.json"))
+                         + glob.glob(os.path.join(C.VERIF, "corpus", "findings", "*_c18_*.json"))):
             cs.append(json.load(open(fn))["case"])
         return cs
 
-    def mk(self, levels, col, mf, drop, meta=None, index=None):
-        return {"levels": [[[k, list(vs)] for k, vs in lv] for lv in levels], "col": encs(col),
+    def mk(self, levels, col, mf, drop, meta=None, index=None, numeric=None):
+        case = {"levels": [[[k, list(vs)] for k, vs in lv] for lv in levels], "col": encs(col),
                 "mf": float(mf), "drop": bool(drop), "kin": hier_values(levels),
                 "wellformed": wellformed(levels), "meta": meta or {}, "index": index}
+        if numeric:
+            # numeric: raw cells are numbers (or a mix); strtab = the str() table of this case
+            case["numeric"] = numeric
+            tab = []
+            for v in col:
+                if not isinstance(v, str) and not isnan(v) and all(t[0] != enc(v) for t in tab):
+                    tab.append([enc(v), strform(v)])
+            case["strtab"] = tab
+        return case
+
+    def numericize(self, rng, case):
+        """same hierarchy and counts with number-named leaves: the column holds ints, floats
+        (integer-valued like 2.0 and others like 3.5) or a mix of numbers and strings; unknown
+        values become unknown numbers"""
+        flavour = rng.choice(["int", "float", "mixed"])
+        names = {}
+
+        def form(name):
+            if name in names:
+                return names[name]
+            m = re.fullmatch(r"v(\d+)", name)
+            u = re.fullmatch(r"u(\d+)", name)
+            if m:
+                i = int(m.group(1))
+                if flavour == "float" and i % 3 == 0:
+                    names[name] = (f"{i}.5", i + 0.5)
+                elif flavour == "float":
+                    names[name] = (str(i + 1), float(i + 1))
+                else:
+                    names[name] = (str(i + 1), i + 1)
+            elif u:
+                i = int(u.group(1))
+                if flavour == "float":
+                    names[name] = (f"{900 + i}.25", 900.25 + i) if i % 2 else (str(900 + i), float(900 + i))
+                else:
+                    names[name] = (str(900 + i), 900 + i)
+            else:
+                names[name] = (name, name)
+            return names[name]
+
+        levels = [[[form(k)[0], [form(v)[0] for v in vs]] for k, vs in lv] for lv in case["levels"]]
+        raw = decs(case["col"])
+        cnt = {}
+        for r in raw:
+            if not isnan(r):
+                cnt[r] = cnt.get(r, 0) + 1
+        top = max(cnt.values()) if cnt else 0
+        col = []
+        for r in raw:
+            if isnan(r):
+                col.append(r)
+                continue
+            sform, cell = form(r)
+            # mixed: a value may appear both as a number and as its string form, except the most
+            # frequent ones (the removal of a feature is decided on raw cells before conversion)
+            if flavour == "mixed" and cnt[r] < top and rng.random() < 0.4:
+                cell = sform
+            col.append(cell)
+        meta = dict(case["meta"], numeric=flavour)
+        return self.mk(levels, col, case["mf"], case["drop"], meta, case.get("index"), flavour)
 
     def rand_forest(self, rng):
         nlev = rng.choice([2, 2, 3, 3, 4])
@@ -311,10 +398,18 @@ class C18(Prop):
         n = 2400 if tier == "thorough" else 260
         cases = [self.rand_case(rng) for _ in range(n)]
         cases += [self.rand_dropped(rng) for _ in range(n // 13)]
+        # numeric columns whose string forms are the hierarchy's leaves
+        for _ in range(n // 3):
+            c = self.rand_case(rng)
+            if rng.random() < 0.5 and not self.unknown_of(c):
+                c = self.rand_case(rng)            # favour cases with unknown values
+            cases.append(self.numericize(rng, c))
+        cases += [self.numericize(rng, self.rand_dropped(rng)) for _ in range(n // 40)]
         return cases
 
     def search_cases(self, rng, neighbours, rnd):
         cases = [self.rand_case(rng) for _ in range(300)]
+        cases += [self.numericize(rng, self.rand_case(rng)) for _ in range(100)]
         for c in neighbours[:10]:
             col = decs(c["col"])
             for _ in range(5):
@@ -322,7 +417,8 @@ class C18(Prop):
                 if col2:
                     i = rng.randrange(len(col2))
                     col2[i] = rng.choice(c["kin"])
-                cases.append(self.mk(c["levels"], col2, c["mf"], c["drop"], {"neighbour": True}, c.get("index")))
+                cases.append(self.mk(c["levels"], col2, c["mf"], c["drop"], {"neighbour": True}, c.get("index"),
+                                     c.get("numeric")))
         return cases
 
     # ---- implementation -----------------------------------------------------------------------
@@ -332,8 +428,15 @@ class C18(Prop):
 
         col = decs(case["col"])
 
+        numeric = case.get("numeric")
+
         def frame(values):
-            df = pd.DataFrame({FEAT: pd.Series(list(values), dtype=object)})
+            values = list(values)
+            if numeric and values and not any(isinstance(v, str) for v in values):
+                ser = pd.Series(values)                       # int64 / float64 column
+            else:
+                ser = pd.Series(values, dtype=object)
+            df = pd.DataFrame({FEAT: ser})
             idx = mk_index(len(df), case.get("index"))
             if idx is not None:
                 df.index = idx
@@ -352,9 +455,20 @@ class C18(Prop):
         if FEAT not in d.features:
             return {"outcome": "dropped"}
         order = d.values_orders[FEAT]
+        # content restricted to strings: raw numbers are stored under their string form
         out = {"outcome": "fitted",
-               "content": [[enc(k), encs(vs)] for k, vs in order.content.items()]}
-        for name, values in (("t_train", col), ("t_known", case["kin"])):
+               "content": [[enc(k), encs([v for v in vs if isinstance(v, str)])]
+                           for k, vs in order.content.items()]}
+        # frames given to transform.  t_train / t_known are also decided by the model (on string
+        # forms); t_raw (the raw numeric training frame), t_known_raw (hierarchy values given as
+        # numbers where they are number strings) and t_new (a never-seen value) by the oracle only
+        frames = [("t_train", scol(case)), ("t_known", case["kin"]),
+                  ("t_new", list(case["kin"][:2]) + [987654 if numeric else "zz_never_seen"])]
+        if numeric:
+            # hierarchy values as the raw numbers seen at fit (a number never seen at fit is a new value)
+            seen = {strform(v): v for v in col if not isinstance(v, str) and not isnan(v)}
+            frames += [("t_raw", col), ("t_known_raw", [seen.get(v, v) for v in case["kin"]])]
+        for name, values in frames:
             try:
                 out[name] = encs(d.transform(frame(values))[FEAT].tolist())
             except Exception as e:  # noqa: BLE001
@@ -365,13 +479,20 @@ class C18(Prop):
     def unknown_of(self, case):
         hv = set(case["kin"])
         out = []
-        for r in decs(case["col"]):
+        for r in scol(case):
             if not isnan(r) and r not in hv and r != STR_NAN and r not in out:
                 out.append(r)
         return out
 
+    def lost_numbers(self, case):
+        """unknown values given as NUMBERS under 'drop' (their raw form is lost from values_orders)"""
+        if not case["drop"]:
+            return []
+        unk = set(self.unknown_of(case))
+        return [v for v in decs(case["col"]) if not isinstance(v, str) and not isnan(v) and strform(v) in unk]
+
     def is_dropped(self, case):
-        col = decs(case["col"])
+        col = decs(case["col"])         # raw cells: decided before the conversion to strings
         n = len(col)
         cnt = {}
         for r in col:
@@ -389,7 +510,7 @@ class C18(Prop):
         if not case["wellformed"]:
             return True, ""
         levels, mf = case["levels"], case["mf"]
-        col = decs(case["col"])
+        col = scol(case)
         unknown = self.unknown_of(case)
         if self.is_dropped(case):
             return True, ""
@@ -434,8 +555,16 @@ class C18(Prop):
                 return False, f"unknown value {u!r} is not grouped with {STR_NAN}"
         if STR_NAN in rows and m.get(STR_NAN) != STR_NAN:
             return False, "missing values have no modality of their own"
-        for name, values in (("t_train", col), ("t_known", case["kin"])):
+        frames = [("t_train", col), ("t_known", case["kin"]), ("t_new", None)]
+        if case.get("numeric"):
+            # the same frames given as raw numbers: each cell must get the leader of its string form
+            frames += [("t_raw", col), ("t_known_raw", case["kin"])]
+        for name, values in frames:
             got = out[name]
+            if values is None:
+                if got != "assert":
+                    return False, "transform of a frame holding a never-seen value is not refused with AssertionError"
+                continue
             filled = [STR_NAN if isnan(r) else r for r in values]
             if any(r not in m for r in filled):
                 exp = "assert"
@@ -443,7 +572,14 @@ class C18(Prop):
                 exp = [NAN if m[r] == STR_NAN else m[r] for r in filled]
             if isinstance(got, str) or isinstance(exp, str):
                 if got != exp:
-                    return False, f"{name}: transform gave {got if isinstance(got, str) else 'a frame'}, expected {exp if isinstance(exp, str) else 'a frame'}"
+                    what = {"t_train": "the training frame", "t_known": "a frame of all hierarchy values",
+                            "t_raw": "the raw numeric training frame",
+                            "t_known_raw": "the hierarchy values given as the numbers seen at fit"}[name]
+                    lost = self.lost_numbers(case) if name == "t_raw" else []
+                    return False, (f"{name}: transform of {what} gave {got if isinstance(got, str) else 'a frame'}, "
+                                   f"expected {exp if isinstance(exp, str) else 'a frame'}"
+                                   + (f" (unknown numbers {sorted(set(lost))} under 'drop' must come out as "
+                                      f"missing values)" if lost else ""))
                 continue
             got = decs(got)
             for i, (a, e) in enumerate(zip(got, exp)):
@@ -484,7 +620,7 @@ class C18(Prop):
             content = [[dec(k), decs(x)] for k, x in out["content"]]
             co = f"(IFitted {dct(content)} {tout(out['t_train'])} {tout(out['t_known'])})"
         levels = C.clist([dct(lv) for lv in case["levels"]])
-        return (f"mkC18 {C.cbool(case['wellformed'])} {levels} {vs(decs(case['col']))} {C.cfloat(case['mf'])} "
+        return (f"mkC18 {C.cbool(case['wellformed'])} {levels} {vs(scol(case))} {C.cfloat(case['mf'])} "
                 f"{C.cbool(case['drop'])} {vs(case['kin'])} {co}")
 
     def coq_shards(self, cases, outs):
@@ -500,7 +636,7 @@ class C18(Prop):
     # ---- evidence -----------------------------------------------------------------------------
     def signature(self, case, out):
         unknown = self.unknown_of(case)
-        has_nan = any(isnan(r) for r in decs(case["col"]))
+        has_nan = any(isnan(r) for r in scol(case))
         prof = "-"
         if out["outcome"] == "fitted":
             m = {}
@@ -513,7 +649,7 @@ class C18(Prop):
                     lvl.setdefault(name, i + 1)
             prof = ",".join(str(sum(1 for x, l in m.items() if x != l and lvl.get(l, 0) == i))
                             for i in range(1, len(case["levels"]) + 1))
-        return (f"L{len(case['levels'])}|{'drop' if case['drop'] else 'raise'}|u{min(2, len(unknown))}|"
+        return (f"{case.get('numeric') or 'str'}|L{len(case['levels'])}|{'drop' if case['drop'] else 'raise'}|u{min(2, len(unknown))}|"
                 f"nan{int(has_nan)}|wf{int(case['wellformed'])}|{out['outcome']}|{prof}")
 
     def finding_signatures(self, case, out, msg):
@@ -522,6 +658,8 @@ class C18(Prop):
             sigs.append("drop_several_unknown_values_asserts")
         if out["outcome"] == "internal" and "empty condition list" in out.get("msg", ""):
             sigs.append("select_empty_condition_list")
+        if out.get("t_raw") == "assert" and self.lost_numbers(case):
+            sigs.append("numeric_unknown_lost_at_transform")
         return sigs
 
     def shrink(self, case, out, msg):
@@ -529,7 +667,8 @@ class C18(Prop):
         best = (case, out, msg)
 
         def attempt(levels, col):
-            cand = self.mk(levels, col, case["mf"], case["drop"], {"shrunk": True}, case.get("index"))
+            cand = self.mk(levels, col, case["mf"], case["drop"], {"shrunk": True}, case.get("index"),
+                           case.get("numeric"))
             if not cand["wellformed"]:
                 return None
             o = self.run_impl(cand)
@@ -572,8 +711,9 @@ class C18(Prop):
 
     def distribution(self, cases, outs):
         outc, depth, rows, unk, pol = {}, {}, [], {}, {"drop": 0, "raise": 0}
-        idx = {}
+        idx, flav = {}, {}
         for c in cases:
+            flav[c.get("numeric") or "str"] = flav.get(c.get("numeric") or "str", 0) + 1
             idx[str(c.get("index"))] = idx.get(str(c.get("index")), 0) + 1
         nan_cases = boundary = 0
         for c, o in zip(cases, outs):
@@ -596,7 +736,7 @@ class C18(Prop):
                 boundary += any(x in (b, b - 1) for x in cnt.values())
         return {"outcomes": outc, "levels": depth, "rows_min": min(rows) if rows else 0,
                 "rows_max": max(rows) if rows else 0, "distinct_unknown_values(0,1,2+)": unk,
-                "policy": pol, "row_index_kind": idx, "cases_with_nan": nan_cases,
+                "policy": pol, "row_index_kind": idx, "column_cells": flav, "cases_with_nan": nan_cases,
                 "cases_with_a_count_on_or_one_below_threshold": boundary,
                 "malformed_hierarchies": sum(1 for c in cases if not c["wellformed"])}
 
